@@ -72,3 +72,12 @@ claim("C17",
       "cross_validate_region returns one of the regions produced.",
       "'returns normally' for arbitrary structures is NOT covered (the periodic search is a float heuristic, L-HEUR); that the dimensionality value is right is C09; region basis in range is the get_region contract (assumed).",
       "symbolic execution against callee contracts + z3", "DESIGN.md §3 C17")
+
+claim("C08",
+      "For every tabulated Wyckoff position with free parameters (all 230 groups) the real solve loop and the real test-position construction of _get_wyckoff_sets are extracted mechanically from the "
+      "source on every run and executed with symbolic parameters: the solved parameters regenerate the representative position modulo the lattice for all x,y,z, and the test positions are exactly all "
+      "expressions x all centring translations (= the closed orbit, table lemma wy.orbit). The enclosing function is executed whole on sample positions with the periodic search under contract: parameters "
+      "are reported only on the path where every test position matched, else ValueError; attributes set exactly for the free variables, values in [0,1); integer matrices make integer parameter shifts lattice shifts; "
+      "has-free-parameters flag evaluated on every (group, letter).",
+      "Real arithmetic for tolerances; _search_periodic_positions under an assumed contract (its cell.T metric is not examined); letters/orbits from spglib (A-SPG); the guard obligations run on sample shapes (4 positions), the per-entry obligations on all entries.",
+      "mechanically extracted blocks executed symbolically per table entry + z3; exhaustive", "DESIGN.md §3 C08")
